@@ -13,17 +13,20 @@ static void mon_cas(void* addr, uint64_t e, uint64_t d, _Bool ok, int o);
 #include "xv.h"
 int xv_threw; uint64_t xv_clock, xv_rmw_old; _Bool xv_cas_ok;
 #ifdef XV_INT
-/* the atomic model of xv.h with the environment step aimed at the accessed cell: identical text, XV_ENV() replaced by env_cell(&(a)) */
-static void env_cell(void* addr);
+/* the atomic model of xv.h with the environment step aimed at the accessed cell: identical text, XV_ENV() replaced by ENV_AT(a).
+ * Other threads may rewrite every cell between any two accesses of this thread; what this thread can observe of that is the value of the cell
+ * it accesses next, so the environment rewrites exactly that cell right before the access (the loop cuts havoc all cells at once). */
+static uint64_t env_val(void* addr, uint64_t cur);
+#define ENV_AT(a) ((a) = (__typeof__(a))env_val((void*)&(a), (uint64_t)(a)))
 #undef XV_A_LOAD
 #undef XV_A_STORE
 #undef XV_A_RMW
 #undef XV_A_CAS
-#define XV_A_LOAD(a, o)     (env_cell((void*)&(a)), xv_clock++, XV_ON_LOAD(&(a), (a), (o)), (a))
-#define XV_A_STORE(a, v, o) (env_cell((void*)&(a)), (a) = (v), xv_clock++, XV_ON_STORE(&(a), (a), (o)), (void)0)
-#define XV_A_RMW(op, a, v, o) (env_cell((void*)&(a)), xv_rmw_old = (uint64_t)(a), (a) = op((a), (v)), xv_clock++, \
+#define XV_A_LOAD(a, o)     (ENV_AT(a), xv_clock++, XV_ON_LOAD(&(a), (a), (o)), (a))
+#define XV_A_STORE(a, v, o) (ENV_AT(a), (a) = (v), xv_clock++, XV_ON_STORE(&(a), (a), (o)), (void)0)
+#define XV_A_RMW(op, a, v, o) (ENV_AT(a), xv_rmw_old = (uint64_t)(a), (a) = op((a), (v)), xv_clock++, \
     XV_ON_RMW(&(a), (__typeof__(a))xv_rmw_old, (a), (o)), (__typeof__(a))xv_rmw_old)
-#define XV_A_CAS(w, a, e, d, s) (env_cell((void*)&(a)), xv_cas_ok = ((a) == *(e)) && !((w) && XV_SPURIOUS()), xv_clock++, \
+#define XV_A_CAS(w, a, e, d, s) (ENV_AT(a), xv_cas_ok = ((a) == *(e)) && !((w) && XV_SPURIOUS()), xv_clock++, \
     XV_ON_CAS(&(a), *(e), (d), xv_cas_ok, (s)), \
     (xv_cas_ok ? (void)((a) = (d)) : (void)(*(e) = (a))), xv_cas_ok)
 #endif
@@ -32,7 +35,7 @@ static void env_cell(void* addr);
 typedef uint64_t mptr;
 typedef unsigned tcbp;
 typedef size_t stamp_t;
-struct tcb { mptr prev; mptr next; stamp_t stamp; };
+struct tcb { mptr prev; mptr next; stamp_t stamp; uint64_t xv_pad; };   /* xv_pad: ghost padding, makes the block size a power of two (cheap offset -> index in the monitors) */
 struct node { struct node* next_chunk; };
 struct toq { tcbp head; tcbp tail; struct node* global_retired_nodes; };
 #define NB 7
@@ -82,7 +85,6 @@ static struct node* nondet_node(void) { unsigned k = nondet_uint(); return k < 3
 enum { F_NONE = 0, F_PREV, F_NEXT, F_STAMP };
 enum { OP_NONE = 0, OP_PUSH, OP_REMOVE, OP_CTOR, OP_OTHER };
 int mon_op; tcbp mon_own;                             /* the operation running and the block it was called for */
-uint64_t obs_prev[NBX], obs_next[NBX], obs_stamp[NBX];
 static int cell_of(void* addr, unsigned* ix) {
   /* every atomic cell of the queue lives in the pool array: block index and field follow from the offset */
   if (!__CPROVER_same_object(addr, (void*)pool)) return F_NONE;
@@ -91,13 +93,20 @@ static int cell_of(void* addr, unsigned* ix) {
   size_t fo = off % sizeof(struct tcb);
   return fo == offsetof(struct tcb, prev) ? F_PREV : fo == offsetof(struct tcb, next) ? F_NEXT : F_STAMP;
 }
-static uint64_t* obs_at(void* addr) { unsigned ix = 0; int f = cell_of(addr, &ix); return f == F_PREV ? &obs_prev[ix] : f == F_NEXT ? &obs_next[ix] : &obs_stamp[ix]; }
-/* the per-cell observation memory is switched on (-DXV_OBS) in the INT runs and in run mark; the big SEQ runs do without it (solver time) */
-#ifdef XV_OBS
-#define OBS_SET(addr, v) (*obs_at(addr) = (v))
-#else
-#define OBS_SET(addr, v) ((void)0)
-#endif
+/* observation memory: the last four (cell, value) pairs this thread has seen - by a load, by its own write, or by the reload of a failed CAS.
+ * (In the code every CAS comes at most three accesses after the read that produced its expected value.) */
+void *h_a0, *h_a1, *h_a2, *h_a3; uint64_t h_v0, h_v1, h_v2, h_v3;
+static void OBS_SET(void* addr, uint64_t v) { h_a3 = h_a2; h_v3 = h_v2; h_a2 = h_a1; h_v2 = h_v1; h_a1 = h_a0; h_v1 = h_v0; h_a0 = addr; h_v0 = v; }
+/* at the head of the small CAS retry loops the cell was the very last thing observed (initial load, or reload of the failed CAS) */
+static _Bool obs_is0(void* addr, uint64_t v) { return h_a0 == addr && h_v0 == v; }
+/* the most recent observation of this cell is v */
+static _Bool obs_is(void* addr, uint64_t v) {
+  if (h_a0 == addr) return h_v0 == v;
+  if (h_a1 == addr) return h_v1 == v;
+  if (h_a2 == addr) return h_v2 == v;
+  if (h_a3 == addr) return h_v3 == v;
+  return 0;
+}
 uint64_t m_own_stamp_ld;   /* last value loaded from the own block's stamp */
 /* head->stamp */
 unsigned m_hs_rmw_n; uint64_t m_hs_old, m_hs_clk;
@@ -118,11 +127,11 @@ struct node *g_obs, *g_cas_e, *g_cas_d, *g_xchg_old, *g_xchg_new, *g_last; unsig
 static void havoc_obs(void); static mptr any_mptr(void); static void env_step(void);
 #define ENV_HAVOC() do { env_step(); havoc_obs(); } while (0)
 /* ---- loop cuts of the INT variants (sqi_*): invariants tie the loop-carried locals to what the thread has observed ---- */
-#define XV_INV_SMF (link == *obs_at(ptr_p) && MP_get(link) <= NB)
+#define XV_INV_SMF (obs_is0((void*)ptr_p, link) && MP_get(link) <= NB)
 #define XV_HAVOC_SMF link = any_mptr(); ENV_HAVOC() /* writes: (*ptr_p) ptr_p */
-#define XV_INV_MN (link == obs_next[tcb_ix(MP_get(block))] && MP_get(link) <= NB)
+#define XV_INV_MN (obs_is0((void*)&MTCB(block)->next, link) && MP_get(link) <= NB)
 #define XV_HAVOC_MN link = any_mptr(); ENV_HAVOC() /* writes: MTCB(block)->next */
-#define XV_INV_UTS (tail_stamp == obs_stamp[tcb_ix(self->tail)])
+#define XV_INV_UTS (obs_is0((void*)&TCB(self->tail)->stamp, tail_stamp))
 #define XV_HAVOC_UTS tail_stamp = nondet_size(); ENV_HAVOC() /* writes: TCB(self->tail)->stamp, reads stamp */
 /* remove_from_prev_list / remove_from_next_list: `last` is only set together with an unmarked `next` (save_next_as_last moves next to the unmarked next_prev) */
 #define XV_INV_RFPL ((MP_get(last) == 0 || !MARKED(*next_p)) && MP_get(*next_p) <= NB && MP_get(*prev_p) <= NB && MP_get(last) <= NB)
@@ -136,7 +145,7 @@ static void havoc_obs(void); static mptr any_mptr(void); static void env_step(vo
   m_xp_store_n = nondet_uint(); m_xp_val = nondet_u64(); m_xp_clk = nondet_u64(); m_xp_order = nondet_int(); m_hp_ld_clk = nondet_u64(); n_cas_fail = nondet_uint(); \
   XV_ASSUME(xv_clock < (1ull << 60) && m_xs_store_n < 1000000 && m_xp_store_n < 1000000 && m_hs_rmw_n < 1000000); ENV_HAVOC(); TCB(block)->stamp = nondet_size() /* writes: prev, TCB(self->head)->stamp prev head */
 /* push, second loop */
-#define XV_INV_PUSH2 (link == obs_next[tcb_ix(MP_get(my_prev))] && MP_get(link) <= NB)
+#define XV_INV_PUSH2 (obs_is0((void*)&MTCB(my_prev)->next, link) && MP_get(link) <= NB)
 #define XV_HAVOC_PUSH2 link = any_mptr(); n_cas_fail = nondet_uint(); ENV_HAVOC() /* writes: MTCB(my_prev)->next */
 /* add_to_global_retired_nodes */
 struct node *g_first_arg, *g_last_arg;
@@ -145,6 +154,27 @@ struct node *g_first_arg, *g_last_arg;
 
 static void sq_add_global2(struct toq* self, struct node* first_chunk, struct node* last_chunk);
 static void sqi_add_global2(struct toq* self, struct node* first_chunk, struct node* last_chunk);
+/* calls inside the INT variants */
+#define SQI_add_global2 sqi_add_global2
+#define SQI_mark_next sqi_mark_next
+#define SQI_remove_or_skip_marked_block sqi_remove_or_skip_marked_block
+#ifdef XV_STUB_CALLEES
+/* run remove_int: the callees are contract stubs.  Under the INT rely their results are arbitrary well-typed values; what remove does with them is checked */
+unsigned st_smf_n, st_rfpl_n, st_rfnl_n, st_uts_n; void *st_smf_cell0, *st_smf_cell1; int st_smf_order0, st_smf_order1; _Bool st_rfpl_res; mptr st_rfpl_b, st_rfnl_b; size_t st_uts_stamp; uint64_t st_uts_clk;
+static mptr st_set_mark_flag(mptr* ptr_p, int order) { if (st_smf_n == 0) { st_smf_cell0 = (void*)ptr_p; st_smf_order0 = order; } else { st_smf_cell1 = (void*)ptr_p; st_smf_order1 = order; } st_smf_n++; return any_mptr(); }
+static _Bool st_remove_from_prev_list(mptr* prev_p, mptr b, mptr* next_p) { st_rfpl_n++; st_rfpl_b = b; *prev_p = any_mptr(); *next_p = any_mptr(); st_rfpl_res = nondet_bool(); return st_rfpl_res; }
+static void st_remove_from_next_list(mptr prev, mptr removed, mptr next) { st_rfnl_n++; st_rfnl_b = removed; }
+static void st_update_tail_stamp(struct toq* self, size_t stamp) { st_uts_n++; st_uts_stamp = stamp; st_uts_clk = xv_clock; }
+#define SQI_set_mark_flag st_set_mark_flag
+#define SQI_remove_from_prev_list st_remove_from_prev_list
+#define SQI_remove_from_next_list st_remove_from_next_list
+#define SQI_update_tail_stamp st_update_tail_stamp
+#else
+#define SQI_set_mark_flag sqi_set_mark_flag
+#define SQI_remove_from_prev_list sqi_remove_from_prev_list
+#define SQI_remove_from_next_list sqi_remove_from_next_list
+#define SQI_update_tail_stamp sqi_update_tail_stamp
+#endif
 #include "lowered.h"
 
 static void mon_load(void* addr, uint64_t v, int o) {
@@ -183,10 +213,8 @@ static void mon_cas(void* addr, uint64_t e, uint64_t d, _Bool ok, int o) {
     return;
   }
   unsigned ix = 0; int f = cell_of(addr, &ix);
-#ifdef XV_OBS
   /* L1: the expected value is what this thread saw in this very cell last */
-  XV_OBL("stampq.cas.expected_read", e == *obs_at(addr));
-#endif
+  XV_OBL("stampq.cas.expected_read", obs_is(addr, e));
   if (f == F_STAMP) {
     if (ix + 1 == I_TAIL) {                           /* tail->stamp only grows, release */
       XV_OBL("stampq.cas.stamp_writes", d > e && XV_IS_RELEASE(o));
@@ -223,18 +251,26 @@ static void mon_cas(void* addr, uint64_t e, uint64_t d, _Bool ok, int o) {
     }
   }
   if (!ok) n_cas_fail++;
-#ifdef XV_CANARY_CAS      /* reachability of every kind of CAS inside the cut loops (run remove_int) */
-  if (ok && f == F_PREV && !MARKED(d) && ix + 1 != I_HEAD) XV_CANARY("int.link_prev_cas");
-  if (ok && f == F_NEXT && !MARKED(d)) XV_CANARY("int.link_next_cas");
-  if (ok && f != F_STAMP && MARKED(d)) XV_CANARY("int.mark_cas");
-  if (ok && f == F_STAMP && ix + 1 != I_TAIL) XV_CANARY("int.help_cas");
-  if (ok && f == F_STAMP && ix + 1 == I_TAIL) XV_CANARY("int.tail_stamp_cas");
-  if (ok && f == F_PREV && ix + 1 == I_HEAD) XV_CANARY("int.head_prev_bump");
-  if (!ok) XV_CANARY("int.cas_failed");
+#ifdef XV_CANARY_RFPL     /* reachability of every kind of CAS inside the cut loop */
+  if (ok && f == F_PREV && !MARKED(d)) XV_CANARY("rfpl_int.link_prev_cas");
+  if (ok && f == F_NEXT && MARKED(d)) XV_CANARY("rfpl_int.mark_next_cas");
+  if (ok && f == F_STAMP) XV_CANARY("rfpl_int.help_cas");
+  if (!ok) XV_CANARY("rfpl_int.cas_failed");
+#endif
+#ifdef XV_CANARY_RFNL
+  if (ok && f == F_PREV && !MARKED(d)) XV_CANARY("rfnl_int.link_prev_cas");
+  if (ok && f == F_NEXT && !MARKED(d)) XV_CANARY("rfnl_int.link_next_cas");
+  if (ok && f == F_NEXT && MARKED(d)) XV_CANARY("rfnl_int.mark_next_cas");
+  if (ok && f == F_STAMP) XV_CANARY("rfnl_int.help_cas");
 #endif
   OBS_SET(addr, ok ? d : *(uint64_t*)addr);                      /* what the thread knows afterwards: its own value, or the reload of the failed CAS */
 }
-static void havoc_obs(void) { for (unsigned i = 0; i < NBX; i++) { obs_prev[i] = nondet_u64(); obs_next[i] = nondet_u64(); obs_stamp[i] = nondet_u64(); } }
+static void* any_cell(void) {
+  unsigned k = nondet_uint(), f = nondet_uint();
+  if (k >= NBX) return (void*)0;
+  return f == 0 ? (void*)&pool[k].prev : f == 1 ? (void*)&pool[k].next : (void*)&pool[k].stamp;
+}
+static void havoc_obs(void) { h_a0 = any_cell(); h_a1 = any_cell(); h_a2 = any_cell(); h_a3 = any_cell(); h_v0 = nondet_u64(); h_v1 = nondet_u64(); h_v2 = nondet_u64(); h_v3 = nondet_u64(); }
 static void reset_monitors(void) {
   mon_op = OP_NONE; mon_own = 0; m_hs_rmw_n = 0; m_ts_write_n = 0; m_xs_store_n = m_xp_store_n = m_xn_store_n = 0; pub_done = 0; m_own_stamp_store_n = 0;
   m_hs_clk = 0; m_xs_clk = m_xp_clk = m_xn_clk = 0; m_hp_ld_clk = 0;
@@ -246,8 +282,10 @@ static void reset_monitors(void) {
 
 /* =========================================== state =========================================== */
 static mptr any_mptr(void) { mptr w = nondet_u64(); XV_ASSUME(MP_get(w) <= NB); return w; }
+/* a stamp never carries both flags (PendingPush is set by push on a clean stamp and cleared before remove can set NotInList); head's and tail's stamps carry none */
+static size_t any_stamp(void) { size_t v = nondet_size(); XV_ASSUME(FLAGS(v) != (NotInList | PendingPush)); return v; }
 static void havoc_cells(void) {
-  for (unsigned i = 0; i < NBX; i++) { pool[i].prev = any_mptr(); pool[i].next = any_mptr(); pool[i].stamp = nondet_size(); }
+  for (unsigned i = 0; i < NBX; i++) { pool[i].prev = any_mptr(); pool[i].next = any_mptr(); pool[i].stamp = any_stamp(); }
 }
 static void havoc_pool(void) {
   havoc_cells();
@@ -255,33 +293,30 @@ static void havoc_pool(void) {
   reset_monitors();
 }
 /* ---- INT environment (rely): other threads write any well-typed value into any cell at any time, except:
- *   head->prev is never marked (head is never removed); head->stamp is a multiple of StampInc, at least StampInc (it starts there and only push's fetch_add changes it);
+ *   head->prev is never marked (head is never removed); head->stamp is free of flags and at least StampInc (it starts there and only push's fetch_add changes it);
+ *   tail->stamp is free of flags; no stamp carries both flags;
  *   the stamp of the caller's own block belongs to the caller - others only help a published pending stamp to its final value */
 _Bool env_on;
 static void env_step(void) {
   size_t own = mon_own ? B(mon_own).stamp : 0;
-  havoc_cells(); XV_ASSUME(!MARKED(B(I_HEAD).prev) && FLAGS(B(I_HEAD).stamp) == 0 && B(I_HEAD).stamp >= StampInc);
+  havoc_cells(); XV_ASSUME(!MARKED(B(I_HEAD).prev) && FLAGS(B(I_HEAD).stamp) == 0 && B(I_HEAD).stamp >= StampInc && FLAGS(B(I_TAIL).stamp) == 0);
   if (mon_own && (mon_op == OP_PUSH || mon_op == OP_REMOVE))
     B(mon_own).stamp = (mon_op == OP_PUSH && pub_done && (own & PendingPush) != 0 && nondet_bool()) ? own + (StampInc - PendingPush) : own;
 }
 #ifdef XV_INT
-void xv_env(void) { }                                /* not used: the environment acts on the cell that is about to be accessed (env_cell) */
-/* Other threads may rewrite every cell between any two accesses of this thread.  What this thread can observe of that is the value of the
- * cell it accesses next, so the environment step rewrites exactly that cell right before the access (every cell is rewritten again before
- * its next access; the loop cuts havoc all cells at once). */
-static void env_cell(void* addr) {
-  if (!env_on) return;
-  if (addr == (void*)&Q.global_retired_nodes) { Q.global_retired_nodes = nondet_node(); return; }
+void xv_env(void) { }                                /* not used: the environment acts on the cell that is about to be accessed (env_val) */
+static uint64_t env_val(void* addr, uint64_t cur) {
+  if (!env_on) return cur;
+  if (addr == (void*)&Q.global_retired_nodes) return (uint64_t)nondet_node();
   unsigned ix = 0; int f = cell_of(addr, &ix);
-  if (f == F_PREV) { pool[ix].prev = any_mptr(); if (ix + 1 == I_HEAD) XV_ASSUME(!MARKED(pool[ix].prev)); }
-  else if (f == F_NEXT) pool[ix].next = any_mptr();
-  else if (f == F_STAMP) {
-    size_t own = pool[ix].stamp;
-    pool[ix].stamp = nondet_size();
-    if (ix + 1 == I_HEAD) XV_ASSUME(FLAGS(pool[ix].stamp) == 0 && pool[ix].stamp >= StampInc);
-    if (ix + 1 == mon_own && (mon_op == OP_PUSH || mon_op == OP_REMOVE))
-      pool[ix].stamp = (mon_op == OP_PUSH && pub_done && (own & PendingPush) != 0 && nondet_bool()) ? own + (StampInc - PendingPush) : own;
-  }
+  if (f == F_PREV) { mptr w = any_mptr(); if (ix + 1 == I_HEAD) XV_ASSUME(!MARKED(w)); return w; }
+  if (f == F_NEXT) return any_mptr();
+  size_t sv = any_stamp();
+  if (ix + 1 == I_HEAD) XV_ASSUME(FLAGS(sv) == 0 && sv >= StampInc);
+  if (ix + 1 == I_TAIL) XV_ASSUME(FLAGS(sv) == 0);
+  if (ix + 1 == mon_own && (mon_op == OP_PUSH || mon_op == OP_REMOVE))
+    sv = (mon_op == OP_PUSH && pub_done && (cur & PendingPush) != 0 && nondet_bool()) ? cur + (StampInc - PendingPush) : cur;
+  return sv;
 }
 #endif
 
@@ -565,7 +600,7 @@ void h_global_int(void) {
 }
 void h_push_int(void) {
 #ifdef XV_INT
-  havoc_pool(); XV_ASSUME(!MARKED(B(I_HEAD).prev) && FLAGS(B(I_HEAD).stamp) == 0 && B(I_HEAD).stamp >= StampInc);
+  int_start();
   mon_op = OP_PUSH; mon_own = I_X; env_on = 1;
   sqi_push(&Q, I_X);
   env_on = 0;
@@ -577,14 +612,65 @@ void h_push_int(void) {
   if (n_link_next_ok == 0) XV_CANARY("push_int.next_left_to_helpers");
 #endif
 }
-void h_remove_int(void) {
+static void int_start(void) { havoc_pool(); XV_ASSUME(!MARKED(B(I_HEAD).prev) && FLAGS(B(I_HEAD).stamp) == 0 && B(I_HEAD).stamp >= StampInc && FLAGS(B(I_TAIL).stamp) == 0); mon_op = OP_OTHER; }
+void h_mark_int(void) {
 #ifdef XV_INT
-  havoc_pool(); XV_ASSUME(!MARKED(B(I_HEAD).prev));
+  int_start();
+  unsigned b = nondet_uint(); XV_ASSUME(b >= 1 && b <= NB);
+  if (nondet_bool()) {
+    _Bool use_next = nondet_bool(); int order = nondet_bool() ? mo_acq_rel : mo_relaxed;
+    env_on = 1; mptr r = sqi_set_mark_flag(use_next ? &B(b).next : &B(b).prev, order); env_on = 0;
+    /* all writes were marking CASes (monitor); the value returned is what the cell held when it was found marked or got marked */
+    XV_OBL("stampq.set_mark_flag.marks", n_link_prev_ok + n_link_next_ok + n_bump_ok + n_help_ok + n_tail_ok == 0 && n_mark_ok <= 1 && (n_mark_ok == 1 || MARKED(r)));
+    if (n_mark_ok) XV_CANARY("mark_int.set_new"); else XV_CANARY("mark_int.set_already");
+  } else {
+    size_t s = nondet_size();
+    env_on = 1; _Bool r = sqi_mark_next(MP_make(b, nondet_uint()), s); env_on = 0;
+    XV_OBL("stampq.mark_next.marks", n_link_prev_ok + n_link_next_ok + n_bump_ok + n_help_ok + n_tail_ok == 0 && n_mark_ok <= 1 && (r || n_mark_ok == 0));
+    if (r) XV_CANARY("mark_int.next_true"); else XV_CANARY("mark_int.next_false");
+  }
+#endif
+}
+void h_uts_int(void) {
+#ifdef XV_INT
+  int_start();
+  size_t st = nondet_size();
+  env_on = 1; sqi_update_tail_stamp(&Q, st); env_on = 0;
+  XV_OBL("stampq.cas.stamp_writes", n_link_prev_ok + n_link_next_ok + n_mark_ok + n_help_ok == 0 && n_tail_ok <= 1 && n_bump_ok <= 1);
+  if (n_tail_ok) XV_CANARY("uts_int.raised"); else XV_CANARY("uts_int.not_raised");
+  if (n_bump_ok) XV_CANARY("uts_int.head_prev_bump");
+#endif
+}
+void h_rfpl_int(void) {
+#ifdef XV_INT
+  int_start();
+  mptr prev = any_mptr(), next = any_mptr(); tcbp b = nondet_uint(); XV_ASSUME(b >= 1 && b <= NB);
+  env_on = 1; _Bool r = sqi_remove_from_prev_list(&prev, MP_make(b, 0), &next); env_on = 0;
+  XV_OBL("stampq.cas.link_change", MP_get(prev) <= NB && MP_get(next) <= NB);
+  if (r) XV_CANARY("rfpl_int.true"); else XV_CANARY("rfpl_int.false");
+#endif
+}
+void h_rfnl_int(void) {
+#ifdef XV_INT
+  int_start();
+  mptr prev = any_mptr(), next = any_mptr(); tcbp b = nondet_uint(); XV_ASSUME(b >= 1 && b <= NB);
+  env_on = 1; sqi_remove_from_next_list(prev, MP_make(b, 0), next); env_on = 0;
+  XV_CANARY("rfnl_int.done");
+#endif
+}
+void h_remove_int(void) {
+#if defined(XV_INT) && defined(XV_STUB_CALLEES)
+  int_start();
   tcbp r = nondet_uint(); XV_ASSUME(r >= I_B0 && r <= NB && FLAGS(B(r).stamp) == 0);
-  mon_op = OP_REMOVE; mon_own = r; env_on = 1; size_t my = B(r).stamp;
+  mon_op = OP_REMOVE; mon_own = r; env_on = 1; size_t my = B(r).stamp; st_smf_n = st_rfpl_n = st_rfnl_n = st_uts_n = 0;
   _Bool res = sqi_remove(&Q, MP_make(r, 0));
   env_on = 0;
+  /* marks its own prev (acq_rel: sync point 9) and next first, then unlinks: next list only if the prev list did not report "fully removed" */
+  XV_OBL("stampq.remove.flags_own_stamp", st_smf_n == 2 && st_smf_cell0 == (void*)&B(r).prev && XV_IS_RELEASE(st_smf_order0) && XV_IS_ACQUIRE(st_smf_order0) && st_smf_cell1 == (void*)&B(r).next);
+  XV_OBL("stampq.remove.flags_own_stamp", st_rfpl_n == 1 && MP_get(st_rfpl_b) == r && st_rfnl_n == (st_rfpl_res ? 0u : 1u) && (st_rfnl_n == 0 || MP_get(st_rfnl_b) == r));
   XV_OBL("stampq.remove.flags_own_stamp", m_own_stamp_store_n == 1 && B(r).stamp == my + NotInList);
+  /* the tail stamp is only touched by the remover that reports "was last", with its own stamp + StampInc as the guess, after the own stamp was flagged */
+  XV_OBL("stampq.remove.last_iff", st_uts_n == (res ? 1u : 0u) && (!res || st_uts_stamp == my + StampInc));
   if (res) XV_CANARY("remove_int.true"); else XV_CANARY("remove_int.false");
 #endif
 }
